@@ -7,7 +7,8 @@ RULE = ("correspondence: infer_text and infer_value (incl. JsonVisitor shape/val
         "From<&Value>(serde_json::from_str(text)) on random renderings (whitespace, number forms, string escapes, raw "
         "non-ASCII, member order) of those documents. non-trivial = document containing an array or object of >=2 "
         "members; distinct = distinct case line / text")
-ASSUMPTIONS = ["member names in generated texts need no escaping (escaped names are the separate known finding KF5)",
+ASSUMPTIONS = ["tree-level documents carry member names that need no escaping; names spelled with escapes are exercised at the text level "
+               "(vlib.respell; the former finding KF5 was repaired by fix 86c1e00 and is no longer suppressed)",
                "serde_json built without preserve_order (Map = BTreeMap), as in /repo/Cargo.lock"]
 
 def big(d):
@@ -61,7 +62,7 @@ def run(ctx):
                 ctx.fail("a member name spelled with escapes is read as a different name than its raw spelling",
                          "from_str\t" + hexs(t), {"text": t[:300], "escaped": x[:200], "raw": rs[0][:200]})
     ctx.notes["escaped_name_renderings"] = n_sp
-    # KF5: escaped member names
+    # escaped member names (the former KF5, repaired by 86c1e00: a failure here is a violation again)
     kf = ['{"a\\nb":1}', '{"\\u0061":1}', '{"a\\"b":true}', '[{"x\\ty":1},{"x\\ty":1,"z":2}]']
     r1 = ctx.impl(["from_str\t" + hexs(t) for t in kf])
     r2 = ctx.impl(["from_value_text\t" + hexs(t) for t in kf])
